@@ -1669,6 +1669,89 @@ def judge_c18(case, lab):
                     res.bad("type-validation-requests", "an option was evaluated but no TypeValidationRequest was observed")
                 if rk in ("ds", "dsof") and kinds.count("log") < 1:
                     res.bad("log-requests", "a dataset was evaluated (cold) but no LogRequest was observed")
+    # (2b) handler installations nest: an observer installed outside still sees every operation when further
+    # handlers are installed inside it in the mapping form (as labrea.cache.disabled() does) or the single form
+    if plain["evaluate"]["ok"]:
+        from labrea.runtime import current_runtime as _cur, handle as _handle
+
+        for inner_form in ("mapping", "single", "cache.disabled"):
+            g = _fresh(case, lab)
+            seen = []
+            base_h = _cur().handlers
+
+            def obs_eval(request, _i=base_h[RT["evaluate"]]):
+                seen.append(request.evaluatable)
+                return _i(request)
+
+            def pt_keys(request, _i=base_h[RT["keys"]]):
+                return _i(request)
+
+            with _handle(RT["evaluate"], obs_eval):
+                if inner_form == "mapping":
+                    ctx = _handle({RT["keys"]: pt_keys})
+                elif inner_form == "single":
+                    ctx = _handle(RT["keys"], pt_keys)
+                else:
+                    import labrea.cache
+
+                    ctx = labrea.cache.disabled()
+                with ctx:
+                    got = observe.call(lambda: g.root.evaluate(copy.deepcopy(o)), lab)
+            if not any(x is g.root for x in seen):
+                res.bad("nested-handlers", "an EvaluateRequest observer installed outside a nested %s handler installation did not see the evaluation of the root" % inner_form)
+            if not same_outcome(got, plain["evaluate"]):
+                res.bad("nested-handlers", "under nested pass-through handlers (%s) evaluate gives %s instead of %s" % (
+                    inner_form, observe.describe(got), observe.describe(plain["evaluate"])))
+    # (2c) every cache lookup / store goes through a request: a backend that records its accesses is touched only
+    # while a handler of one of the three cache request types is running
+    if case["nodes"][-1]["k"] == "ds" and case["nodes"][-1].get("cache", "mem") == "mem" and plain["evaluate"]["ok"]:
+        from labrea.cache import Cache, CacheGetFailure
+        from labrea.runtime import current_runtime as _cur2, handle as _handle2
+
+        depth = [0]
+        outside = []
+
+        class Backend(Cache):
+            def __init__(self):
+                self.store = {}
+
+            def _note(self, what):
+                if depth[0] == 0:
+                    outside.append(what)
+
+            def exists(self, evaluatable, options):
+                self._note("exists")
+                return evaluatable.fingerprint(options) in self.store
+
+            def get(self, evaluatable, options):
+                self._note("get")
+                try:
+                    return self.store[evaluatable.fingerprint(options)]
+                except KeyError:
+                    raise CacheGetFailure(evaluatable, options, self)
+
+            def set(self, evaluatable, options, value):
+                self._note("set")
+                self.store[evaluatable.fingerprint(options)] = value
+
+        g = _fresh(case, lab)
+        g.root.set_cache(Backend())
+        base_h = _cur2().handlers
+        hs = {}
+        for n in ("cache_exists", "cache_get", "cache_set"):
+            def h(request, _i=base_h[RT[n]]):
+                depth[0] += 1
+                try:
+                    return _i(request)
+                finally:
+                    depth[0] -= 1
+            hs[RT[n]] = h
+        with _handle2(hs):
+            for op in ("evaluate", "evaluate", "validate", "keys", "explain", "evaluate"):
+                observe.call(lambda: ops[op](g), lab)
+                if outside:
+                    res.bad("cache-access-without-request", "during %s() the cache backend was accessed (%s) outside every cache request" % (op, outside))
+                    break
     # (3) a substituting handler for one dataset is honoured wherever it is used
     from labrea.runtime import current_runtime, handle
     from labrea.types import EvaluateRequest
